@@ -12,6 +12,8 @@ def pt(u):
 
 
 def ll(x):
+    if x[0] < -3.2:          # a region of zero likelihood: prior draws falling there are replaced during warm-up
+        return -np.inf
     return float(-0.5 * np.sum((x - 0.4) ** 2) / 0.36)
 
 
